@@ -16,6 +16,7 @@ and the executable oracles used by the correspondence check (`piSieve`, `piTable
 -/
 import PcProofs.Api
 import PcProofs.ApiStr
+import PcProofs.L1Routes
 
 namespace Pc.C01
 open PcGen.ApiConst Pc.PiApi
@@ -61,6 +62,23 @@ theorem piApi_route_independent (r r' : Routes) (maxX : ℕ)
     (x : ℤ) (hlo : -2 ^ 127 ≤ x) (hx : x ≤ maxX) : piApi128 r x = piApi128 r' x := by
   rw [piApi_correct r maxX h.1 h.2.1 h.2.2.1 h.2.2.2.1 h.2.2.2.2 x hlo hx,
     piApi_correct r' maxX h'.1 h'.2.1 h'.2.2.1 h'.2.2.2.1 h'.2.2.2.2 x hlo hx]
+
+/-- **Unconditional.** The L1 model of the whole API — dispatcher of `api.cpp` over the cache table dumped from the
+    binary (kernel-checked), Legendre, Meissel and Gourdon written with the executable defining sums the C++ terms are
+    compared with — returns π(x) for EVERY x in [−2^127, maxX], for EVERY value of the float products behind (y, z)
+    (`fo.v`, `fo.w`: all tuning factors, clamped or not) and every range limit that admits maxX. No route hypothesis is left:
+    they are discharged by `piCache_correct` (C17), `NT_legendre_total`, `NT_meissel_total`, `NT_gourdon_total` (C08). -/
+theorem piApi_correct_l1 (fo : FloatOutcomes) (maxX : ℕ) (hlim : ∀ x, x ≤ maxX → x ≤ fo.limit x)
+    (x : ℤ) (hlo : -2 ^ 127 ≤ x) (hx : x ≤ maxX) :
+    piApi128 (l1Routes fo) x = .ok (Nat.primeCounting x.toNat : ℤ) :=
+  let h := l1Routes_correct fo
+  piApi_correct (l1Routes fo) maxX h.1 h.2.1 h.2.2.1 h.2.2.2 (l1Routes_correct128 fo maxX hlim) x hlo hx
+
+/-- … and on the 64-bit entry point (C++ `pi(int64_t)`, C `primecount_pi`) for every int64 value -/
+theorem piApi64_correct_l1 (fo : FloatOutcomes) (x : ℤ) (hx : x ≤ int64Max) :
+    piApi64 (l1Routes fo) x = Nat.primeCounting x.toNat :=
+  let h := l1Routes_correct fo
+  (piApi64_correct (l1Routes fo) h.1 h.2.1 h.2.2.1 h.2.2.2 x hx).1
 
 /-- negative arguments give 0 unconditionally (no route is consulted, no 64-bit cast happens) -/
 theorem piApi128_neg (r : Routes) (x : ℤ) (hx : x < 0) : piApi128 r x = .ok 0 := by
@@ -118,6 +136,8 @@ end Pc.C01
 #print axioms Pc.C01.piApi64_correct
 #print axioms Pc.C01.piApi_correct
 #print axioms Pc.C01.piApi_route_independent
+#print axioms Pc.C01.piApi_correct_l1
+#print axioms Pc.C01.piApi64_correct_l1
 #print axioms Pc.C01.piApi128_neg
 #print axioms Pc.C01.toString_roundtrip
 #print axioms Pc.C01.toMaxint_digits
